@@ -26,6 +26,7 @@ type credCase struct {
 	Op      string            `json:"op"`
 	Fields  map[string]string `json:"fields"` // base64 values; keys: protocol host path username password wwwauth[] state[]
 	ViaURL  bool              `json:"via_url"`
+	Prior   bool              `json:"prior"` // the context first serves another URL whose URL-scoped setting switches protection off
 }
 type credResult struct {
 	ID       int    `json:"id"`
@@ -60,6 +61,9 @@ func credOne(c credCase, shimDir string) (r credResult) {
 	if _, ok := f["path"]; ok {
 		genv["credential.usehttppath"] = []string{"true"}
 	}
+	if c.Prior {
+		genv["credential.https://prior.example.com.protectprotocol"] = []string{"false"}
+	}
 	home, _ := os.MkdirTemp(shimDir, "home-")
 	defer os.RemoveAll(home)
 	osEnv := config.EnvironmentOf(config.MapFetcher(map[string][]string{"HOME": {home}}))
@@ -88,6 +92,10 @@ func credOne(c credCase, shimDir string) (r credResult) {
 	}
 	if v, ok := f["state[]"]; ok {
 		ctx.SetStateFields([]string{v})
+	}
+	if c.Prior {
+		pu, _ := url.Parse("https://prior.example.com/other/repo.git")
+		ctx.GetCredentialHelper(nil, pu)
 	}
 	w := ctx.GetCredentialHelper(nil, u)
 	var err error
